@@ -278,6 +278,11 @@ def run_check(harness_name, tier, seed=0, jobs=None, only=None):
     evdir = os.environ.get("SYMX_EVIDENCE_DIR") or os.path.join(ROOT, "evidence")     # mutant runs write elsewhere
     os.makedirs(evdir, exist_ok=True)
     json.dump(ev, open(os.path.join(evdir, prop + ".json"), "w"), indent=1, default=str)
+    if not only:
+        # <id>.json always describes the LAST run; a copy per tier is kept so that a quick run does not erase the record of
+        # the last thorough run (and vice versa)
+        os.makedirs(os.path.join(evdir, "by_tier"), exist_ok=True)
+        json.dump(ev, open(os.path.join(evdir, "by_tier", "%s.%s.json" % (prop, tier)), "w"), indent=1, default=str)
     print("%s %s: cases=%d paths=%d queries=%d obligations=%d discharged=%d sat=%d unknown=%d validated=%d solver=%.1fs wall=%.1fs"
           % (prop, tier, len(tasks), agg["paths"], agg["queries"], agg["obligations"], agg["discharged"], agg["sat"],
              agg["unknown"], agg["validated"], solver_time, wall))
